@@ -15,6 +15,7 @@ demo=$(git status --porcelain | grep 'zz_benign_demo_test.go' | awk '{print $2}'
 pkg=./$(dirname "$demo")
 out=/verif/seeded/$sid
 mkdir -p "$out"
+git add -N -- . ":!*zz_seed_demo_test.go" ":!*zz_benign_demo_test.go" ":!NOTES.md" 2>/dev/null  # new source files belong to the patch
 git diff -- . ':!*zz_benign_demo_test.go' > "$out/patch.diff"
 [ -s "$out/patch.diff" ] || { echo "empty patch"; exit 2; }
 cp "$demo" "$out/$(basename "$demo")"
